@@ -1,3 +1,4 @@
 import Preflate.Props.C04
 #print axioms Preflate.gen_eq_ref
 #print axioms Preflate.decStream_encStream
+#print axioms Preflate.add_policy_calls
